@@ -12,13 +12,35 @@ STATE_NAMES = ['IDLE', 'SEGMENTED_REQUEST', 'AWAIT_CONFIRMATION', 'AWAIT_RESPONS
 
 
 def time_bound(cfg, nreq_segs, nresp_segs):
-    """Generous upper bound (seconds) for the outcome of one request: every wait the client side can
-    legitimately perform, each repeated retries+1 times."""
+    """Upper bound (seconds) for the outcome of one request.  Unsegmented both ways the only timer is the APDU timeout,
+    so the bound is exact: (retries + 1) x T_apdu.  With segments every wait the client side can legitimately perform is
+    counted generously (late frames restart segment timers), each repeated retries+1 times."""
     c = cfg.c
     r = c["retries"] + 1
+    if nreq_segs <= 1 and nresp_segs <= 1:
+        return r * c["apdu_timeout"] / 1000.0 + 0.5
     seg = c["seg_timeout"] / 1000.0
     per_try = c["apdu_timeout"] / 1000.0 + (nreq_segs + 1) * r * seg
     return r * per_try + (nresp_segs + 2) * 4 * seg + 1.0
+
+
+def judge_retransmissions(sysm, problems):
+    """An unsegmented request goes out at most retries + 1 times (identical frames of the requesting stack)."""
+    client_mac = str(sysm.client.address)
+    limit = sysm.cfg.c["retries"] + 1
+    counts = {}
+    for ev in sysm.events:
+        if ev[0] != "emit" or ev[2] != client_mac:
+            continue
+        try:
+            n, a = ssmwire.parse_frame(ev[4])
+        except ssmwire.WireError:
+            continue
+        if a is not None and a["type"] == 0 and not a["seg"]:
+            counts[(a["invoke"], ev[4])] = counts.get((a["invoke"], ev[4]), 0) + 1
+    for (inv, data), k in counts.items():
+        if k > limit:
+            problems.append(("request-transmitted-more-often-than-retries-allow", {"invoke": inv, "transmissions": k, "retries": limit - 1}))
 
 
 def seg_count(total_len, seg_size):
